@@ -74,8 +74,11 @@ def get_settings(cfg, author_bypass):
                     need_author_approval=need_author,
                     project_leaders=[LEAD, AUTHOR] if author_leader
                     else [LEAD])
-        if author_bypass:
-            over['pr_author_options'] = {AUTHOR: list(author_bypass)}
+        # another author, listed first, holds every review bypass: only the
+        # pull request author's own entry may count
+        over['pr_author_options'] = {PEER2: list(BYPASSES),
+                                     AUTHOR: list(author_bypass),
+                                     PEER1: ['bypass_jira_check']}
         s = _settings_cache[key] = stubs.make_settings(**over)
     return s
 
